@@ -782,3 +782,60 @@ func responseFreshPerCheck(c *Check, rule string, R *Roles) {
 	c.Obl(bad == "", rule, "response-fresh-per-check", P.Pos(pc.Pos()), "the response the filters write to is allocated by this check ("+fnKey(fn)+")",
 		"the response the filters write to can be "+bad+": an object another check can reach while this answer is still waiting to be sent carries one client's session cookie, state and nonce to another")
 }
+
+// configFieldsNotWritten: no own (non-generated) function assigns the listed configuration fields, stores
+// into an element of such a list, or hands the list to a function that edits its argument in place
+// (slices.DeleteFunc / Delete / Insert / Compact / Sort / Reverse, sort.*): what the request path evaluates is
+// the configuration as it was loaded.
+func configFieldsNotWritten(c *Check, rule, key string, ids map[string]bool, what string) {
+	P := c.P
+	n := 0
+	isListLoad := func(v ssa.Value) (string, bool) {
+		for _, l := range Leaves(v, leafOpts{noConcat: true}) {
+			l = resolveCell(stripConv(l))
+			if u, ok := l.(*ssa.UnOp); ok && u.Op == token.MUL {
+				if fa, isF := u.X.(*ssa.FieldAddr); isF && ids[fieldAddrID(fa)] {
+					return fieldAddrID(fa), true
+				}
+			}
+		}
+		return "", false
+	}
+	for _, f := range P.Funcs {
+		if !isOwnPath(pkgPathOf(f)) || strings.HasPrefix(pkgPathOf(f), modPath+"/config/gen/") {
+			continue
+		}
+		for _, b := range f.Blocks {
+			for _, ins := range b.Instrs {
+				switch x := ins.(type) {
+				case *ssa.Store:
+					if fa, isF := x.Addr.(*ssa.FieldAddr); isF && ids[fieldAddrID(fa)] {
+						n++
+						c.Fail(rule, key+"/"+fnKey(f)+"/"+shortID(fieldAddrID(fa)), P.Pos(x.Pos()), "own code assigns "+shortID(fieldAddrID(fa))+": "+what)
+					}
+					if ia, isI := x.Addr.(*ssa.IndexAddr); isI {
+						if id, isL := isListLoad(ia.X); isL {
+							n++
+							c.Fail(rule, key+"/"+fnKey(f)+"/"+shortID(id)+"[]", P.Pos(x.Pos()), "own code stores into an element of "+shortID(id)+": "+what)
+						}
+					}
+				case ssa.CallInstruction:
+					id := funcID(calleeOf(x).Obj)
+					if !(strings.HasPrefix(id, "slices.Delete") || strings.HasPrefix(id, "slices.Insert") || strings.HasPrefix(id, "slices.Compact") ||
+						strings.HasPrefix(id, "slices.Sort") || id == "slices.Reverse" || strings.HasPrefix(id, "sort.")) {
+						continue
+					}
+					for _, a := range x.Common().Args {
+						if lid, isL := isListLoad(a); isL {
+							n++
+							c.Fail(rule, key+"/"+fnKey(f)+"/"+shortID(lid)+"/"+shortID(id), P.Pos(x.Pos()), shortID(id)+" edits "+shortID(lid)+" in place: "+what)
+						}
+					}
+				}
+			}
+		}
+	}
+	if n == 0 {
+		c.Pass(rule, key, "-", "no own (non-generated) function writes "+strings.Join(sortedKeys(ids), ", "))
+	}
+}
